@@ -21,6 +21,7 @@ from z3 import (Array, BitVec, BitVecSort, BitVecVal, is_app, is_const, is_eq)  
 
 from halmos.bitvec import HalmosBitVec as BV  # noqa: E402
 from halmos.bytevec import ByteVec  # noqa: E402
+from halmos.contract import Contract  # noqa: E402
 from halmos.exceptions import EvmException, HalmosException, Revert  # noqa: E402
 from halmos.sevm import con_addr  # noqa: E402
 
@@ -54,9 +55,45 @@ class Scenario:
     name: str = ""
     static: bool = False
     meta: dict = field(default_factory=dict)
+    # symbolic immutables: address -> byte offsets of 32-byte holes in that account's code (e.g. the operand of a PUSH32);
+    # hole j (in the order of `holes()`) is the word symbol a{nargs+j}, so an input carries nargs + len(holes) words:
+    # the first nargs are calldata, the others are what the deployed code holds at the holes
+    immutables: dict = field(default_factory=dict)
 
     def main_code(self):
         return self.contracts[MAIN]
+
+    def holes(self):
+        return [(a, off) for a in sorted(self.immutables) for off in sorted(self.immutables[a])]
+
+    @property
+    def nwords(self):
+        return self.nargs + len(self.holes())
+
+    def filled(self, words):
+        """the concrete code of every account when the hole words are `words[nargs:]`"""
+        out = dict(self.contracts)
+        for j, (a, off) in enumerate(self.holes()):
+            c = bytearray(out[a])
+            c[off:off + 32] = (words[self.nargs + j] % W).to_bytes(32, "big")
+            out[a] = bytes(c)
+        return out
+
+    def symbolic_code(self, a):
+        """bytes, or a ByteVec concrete | symbolic word | concrete ... for an account with holes"""
+        offs = sorted(self.immutables.get(a, ()))
+        if not offs:
+            return self.contracts[a]
+        idx = {h: j for j, h in enumerate(self.holes())}
+        code, bv, pos = self.contracts[a], ByteVec(), 0
+        for off in offs:
+            if off > pos:
+                bv.append(code[pos:off])
+            bv.append(BV(BitVec(f"a{self.nargs + idx[(a, off)]}", 256), size=256))
+            pos = off + 32
+        if pos < len(code):
+            bv.append(code[pos:])
+        return Contract(bv)
 
 
 @dataclass
@@ -96,8 +133,8 @@ def symbolic_run(scn: Scenario, **cfg) -> SymRun:
         cd.append(scn.selector)
     for i in range(scn.nargs):
         cd.append(BV(BitVec(f"a{i}", 256), size=256))
-    extra = {con_addr(a): c for a, c in scn.contracts.items() if a != MAIN}
-    ex = sevmdrv.mk_ex(sevm, args, scn.main_code(), calldata=cd, this=con_addr(MAIN), extra_code=extra,
+    extra = {con_addr(a): scn.symbolic_code(a) for a in scn.contracts if a != MAIN}
+    ex = sevmdrv.mk_ex(sevm, args, scn.symbolic_code(MAIN), calldata=cd, this=con_addr(MAIN), extra_code=extra,
                        is_static=scn.static)
     if symbolic_storage:
         # what svm.enableSymbolicStorage / vm.setArbitraryStorage do: the account's initial storage is arbitrary
@@ -292,14 +329,14 @@ def hb(b: bytes):
 def lean_requests(scn: Scenario, inp: Inputs, fuel=20000, memlimit=1 << 20):
     lines = ["reset", f"param origin {hx(inp.origin)}", f"param allocbase {hx(ALLOC_BASE)}", f"param memlimit {hx(memlimit)}",
              f"baldefault {hx(inp.baldefault)}"]
-    for a, c in scn.contracts.items():
+    for a, c in scn.filled(inp.args).items():
         lines.append(f"code {hx(a)} {hb(c)}")
     for a, v in inp.balances.items():
         lines.append(f"balance {hx(a)} {hx(v)}")
     for (a, slot), v in inp.storage.items():
         if v:
             lines.append(f"storage {hx(a)} {hx(slot)} {hx(v)}")
-    cd = scn.selector + b"".join(v.to_bytes(32, "big") for v in inp.args)
+    cd = scn.selector + b"".join(v.to_bytes(32, "big") for v in inp.args[:scn.nargs])
     lines.append(f"exec {hx(inp.caller)} {hx(MAIN)} {hx(inp.value)} {hb(cd)} {hx(fuel)} {1 if scn.static else 0}")
     return lines
 
@@ -388,12 +425,12 @@ def random_inputs(rng, scn: Scenario, pool=None) -> Inputs:
         bal = {a: 0 for a in set(addrs + [caller])}
         bal[rich] = rng.choice([1 << 128, (1 << 128) - 1])
         value = rng.choice([0, 0, 1, value]) if rich == caller else 0
-        return Inputs([word() for _ in range(scn.nargs)], caller, origin, value, bal, 0)
-    return Inputs([word() for _ in range(scn.nargs)], caller, origin, value, bal, rng.choice([0, 0, 7]))
+        return Inputs([word() for _ in range(scn.nwords)], caller, origin, value, bal, 0)
+    return Inputs([word() for _ in range(scn.nwords)], caller, origin, value, bal, rng.choice([0, 0, 7]))
 
 
 def input_vars(scn: Scenario):
-    vs = {f"a{i}": BitVec(f"a{i}", 256) for i in range(scn.nargs)}
+    vs = {f"a{i}": BitVec(f"a{i}", 256) for i in range(scn.nwords)}
     vs["msg_sender"] = BitVec("msg_sender", 160)
     vs["tx_origin"] = BitVec("tx_origin", 160)
     vs["msg_value"] = BitVec("msg_value", 256)
@@ -438,7 +475,7 @@ def model_to_inputs(m, scn: Scenario, rng=None) -> Inputs:
             v = m[d]
             if z3.is_bv_value(v):
                 storage[(int(mm.group(1), 16), int(mm.group(2)))] = v.as_long()
-    return Inputs([val(f"a{i}") for i in range(scn.nargs)], val("msg_sender"), val("tx_origin"), val("msg_value"), balances, dflt, storage)
+    return Inputs([val(f"a{i}") for i in range(scn.nwords)], val("msg_sender"), val("tx_origin"), val("msg_value"), balances, dflt, storage)
 
 
 def solve_inputs(conds, scn, extra=(), timeout_ms=2000, n=1):
